@@ -103,12 +103,15 @@ def run_c15(tier, seed):
     cdir = os.path.join(chk.workdir, "c")
     shutil.rmtree(cdir, ignore_errors=True)
     os.makedirs(cdir)
-    csch = {"structs": sch["structs"], "enums": sch["enums"], "impls": sch["impls"]}
+    def flat(name):
+        return all(f["type"]["k"] in ("u", "i", "f32", "f64", "enum") for f in glue.find(sch["structs"], name)["fields"])
+    # the C generator's advertised subset is flat structs: the embedded-struct twins are generated but not driven
+    csch = {"structs": sch["structs"], "enums": sch["enums"], "impls": [im for im in sch["impls"] if flat(im["type"])]}
     stc, info = cdriver.generate_c(fcp, cdir)
     exe = None
     if stc == "ok":
         stc, exe = cdriver.build(csch, cdir)
-    can_cases = [c for c in cases if c["frame"]]
+    can_cases = [c for c in cases if c["frame"] and flat(c["struct"])]
     if stc != "ok":
         chk.count(1)
         chk.violation("c:%s" % stc, {"info": info if exe is None else exe})
